@@ -449,6 +449,8 @@ def run(chk: Check) -> None:
     opts = docports.OPTION_SETS[:10]
     gen_docs.AVOID = {"tags_in_prose", "html_block_words", "bare_url", "mixed_ordered_delims", "break_in_list", "tags_in_containers", "backslash_word", "footnote_in_container", "marker_first_word", "refdef_in_container", "nested_bracket_links"}
     cases = docports.gen_cases(chk, 500 * n, malformed_share=0.0, opts=opts)
+    for i, d in enumerate(gen_docs.systematic_docs()):
+        cases.append({"doc": d, "opts": dict(opts[i % len(opts)])})
     gen_docs.AVOID = set()
     for fid, (doc, o) in REPRO.items():
         oo = dict(width=o["width"], semantic=o["semantic"], cleanups=False, smartquotes=False, ellipses=False, list_spacing="preserve")
